@@ -21,10 +21,17 @@ MODEL = dict(kind="sm", backend="py", name="Thr", ns="NS", iface=dict(structs=[]
              tt=[["S1", "EvA", "S2", "ActA", "None"], ["S2", "EvA", "S1", "ActA", "None"], ["S1", "EvB", "None", "ActB", "None"], ["S2", "EvB", "None", "ActB", "None"]])
 
 
-def scenario(r, out, oc, reqs, pend):
+BURST = 300
+
+
+def scenario(r, out, oc, reqs, pend, burst=False):
     nprod = r.choice([1, 2, 2, 3])
     totals = [r.randint(0, 3) for _ in range(nprod)]
     cb_total = r.choice([0, 0, 1, 2])
+    if burst:
+        # a long backlog: one producer triggers BURST events while the first callback is still busy; that callback then
+        # triggers an event of its own (the queue is unbounded: nothing blocks, nothing is lost)
+        nprod, totals, cb_total = 1, [BURST], 1
     seed = r.randrange(1 << 30)
     sim = sched.Sim(random.Random(seed))
     ctrl_mod, sm_mod = sched.load_machine(sim, out, "Thr")
@@ -35,6 +42,8 @@ def scenario(r, out, oc, reqs, pend):
         def _act(self, event):
             if sim.me() == "worker" and cb_left[0] > 0:
                 cb_left[0] -= 1
+                if burst:
+                    sim.sync(lambda: counters.get(0, 0) >= 257)       # busy until a backlog has built up
                 holder["sm"].TriggerEvB()
 
         def ActA(self, event):
@@ -98,6 +107,8 @@ def scenario(r, out, oc, reqs, pend):
         return f
 
     def stopper():
+        if burst:
+            sim.sync(lambda: counters.get(0, 0) >= BURST)        # (the backlog scenario stops after the burst)
         sim.pstate["stopper"] = "stopping"
         sm.stop()
         sim.stop_returned_at = len(sim.begun)
@@ -152,7 +163,7 @@ def run(tier):
     proof = proof_status(PROP, thorough)
     oc = Outcome(PROP)
     oc.rule = ("the real generated threaded machine executed under a seeded cooperative scheduler: 1-3 producer threads with 0-3 triggers each, 0-2 events triggered from callbacks on the worker, "
-               "a thread calling stop() at a scheduler-chosen moment; oracle on the execution: no overlap of process() bodies, every triggered event processed exactly once, per-source order, "
+               "a thread calling stop() at a scheduler-chosen moment; a few backlog scenarios (300 events queued while the first callback is busy, which then triggers one more); oracle on the execution: no overlap of process() bodies, every triggered event processed exactly once, per-source order, "
                "stop() returns (no schedule without enabled thread), nothing lost; each schedule's label sequence replayed on Model/PyQueue (must be enabled step by step, same process order); "
                "non-trivial = at least one event triggered")
     oc.assumptions = TRUSTED
@@ -163,7 +174,7 @@ def run(tier):
         out = os.path.join(base, "out")
         runner.generate(MODEL, out)
         for i in range(4000 if thorough else 500):
-            scenario(r, out, oc, reqs, pend)
+            scenario(r, out, oc, reqs, pend, burst=i % 250 == 7)
             if oc.violations:
                 break
     for info, ans in zip(pend, lean_batch(reqs)):
